@@ -187,6 +187,62 @@ def gen_script(rng, sc, opts):
     return script
 
 
+def add_cross_market(rng, sc, p_cross):
+    """requests issued from the callback of ANOTHER market of the run (a strategy hedging in market A when market B moves): appended to
+    existing script entries; the target market must already have been seen (an update strictly earlier than the current one)"""
+    P = TICKS_BP
+    nxt = 1 + max([a[1] for e in sc["script"] for a in e["acts"] if a[0] == "place"] + [0])
+    placed = {}      # (s, mj) -> [(name, kind, pt of the update it was requested at)]
+    for e in sc["script"]:
+        for a in e["acts"]:
+            if a[0] == "place":
+                placed.setdefault((e["s"], e["m"]), []).append((a[1], a[4]["t"], sc["markets"][e["m"]]["updates"][e["u"]]["pt"]))
+    entries = {(e["s"], e["m"], e["u"]): e for e in sc["script"]}
+    for s in range(len(sc["strategies"])):
+        for mi, m in enumerate(sc["markets"]):
+            for u, upd in enumerate(m["updates"]):
+                if upd["status"] == "CLOSED" or rng.random() >= p_cross:
+                    continue
+                others = [j for j in range(len(sc["markets"])) if j != mi]
+                if not others:
+                    continue
+                mj = rng.choice(others)
+                ups = sc["markets"][mj]["updates"]
+                k = max([i for i, x in enumerate(ups) if x["pt"] < upd["pt"]] + [-1])
+                if k < 0 or any(x["status"] == "CLOSED" for x in ups[:k + 1]):
+                    continue
+                acts = []
+                mine = [x for x in placed.get((s, mj), []) if x[2] < upd["pt"] and x[1] == "L"]
+                if mine and rng.random() < 0.5:
+                    name = rng.choice(mine)[0]
+                    kk = rng.random()
+                    if kk < 0.5:
+                        acts.append(["cancel", name, rng.choice([None, None, 100, 50]), {"on": mj}])
+                    elif kk < 0.7:
+                        acts.append(["update", name, rng.choice(["PERSIST", "LAPSE"]), {"on": mj}])
+                    else:
+                        acts.append(["replace", name, rng.choice(P[4:22]), {"on": mj, "mv": None}])
+                else:
+                    act = [r for r in ups[k]["runners"] if r["status"] == "ACTIVE"]
+                    if not act:
+                        continue
+                    r = rng.choice(act)
+                    ref = (r["atb"] or r["atl"] or [[P[8], 0]])[0][0]
+                    ri = P.index(ref) if ref in P else 8
+                    price = P[min(len(P) - 1, max(0, ri + rng.choice([-2, -1, 0, 1, 2, 3])))]
+                    name = nxt; nxt += 1
+                    t = {"t": "L", "p": price, "s": rng.choice([200, 500, 1000, 300]), "pt": rng.choice(["LAPSE", "PERSIST"]), "tif": None, "mf": None}
+                    acts.append(["place", name, r["id"], rng.choice(["BACK", "LAY"]), t, {"mv": None, "on": mj}])
+                    placed.setdefault((s, mj), []).append((name, "L", upd["pt"]))
+                e = entries.get((s, mi, u))
+                if e is None:
+                    e = {"s": s, "m": mi, "u": u, "acts": []}
+                    entries[(s, mi, u)] = e
+                    sc["script"].append(e)
+                e["acts"].extend(acts)
+    return sc
+
+
 def gen_scenario(rng, opts=None):
     opts = dict(opts or {})
     nm = rng.choice(opts.get("nmarkets", [1, 1, 1, 2]))
@@ -197,6 +253,8 @@ def gen_scenario(rng, opts=None):
           "strategies": [{"name": "s%d" % i, "client": 0} for i in range(ns)],
           "markets": [gen_market(rng, i + 1, opts) for i in range(nm)]}
     sc["script"] = gen_script(rng, sc, opts)
+    if opts.get("p_cross"):
+        add_cross_market(rng, sc, opts["p_cross"])
     return sc
 
 
@@ -266,6 +324,11 @@ def coq_book(u):
 
 
 def coq_action(a):
+    opt = (a[5] if a[0] == "place" else (a[3] if len(a) > 3 else None)) or {}
+    if opt.get("on") is not None:
+        inner = list(a)
+        inner[5 if a[0] == "place" else 3] = {k: v for k, v in opt.items() if k != "on"}
+        return "(AOn %s %s)" % (z(opt["on"]), coq_action(inner))
     if a[0] == "place":
         t = a[4]
         if t["t"] == "L":
